@@ -1222,6 +1222,8 @@ export class TupleRuntype extends BaseRuntype {
     return annotateSchema(this.metadata, {
       type: "array",
       prefixItems,
+      // every prefix position is validated, so shorter arrays are not members of the tuple
+      minItems: prefixItems.length,
       items,
     } as any);
   }
